@@ -1316,3 +1316,121 @@ _run_c03_prev11 = run
 def run(res, facts, tier):
     _run_c03_prev11(res, facts, tier)
     r11_dangling_handles(res, facts)
+
+
+# ----------------------------------------------------------------------------------------------- R12: no null slot in a map of owning pointers across a call that can fail
+TRIVIAL_CALLS = {'get', 'releasePtr', 'release', 'getQName', 'getMemoryManager'}
+
+
+def r12_null_slots(res, facts):
+    """operator[] of a map whose mapped type is a raw pointer creates the slot - holding null - before anything is stored in it.  The owners of such maps destroy or
+    dereference every value they hold without a test (clean-up loops, returnXResultTreeFrag, the function tables), so a null that stays behind is a crash later: when
+    the transformation fails.  Between the creation of the slot and the store of the real pointer no call may be able to throw anything but memory exhaustion."""
+    import re as _re
+    r = res.rule('C03-R12', 'maps of raw owning pointers: between operator[] creating a slot (null) and the store of the pointer no call can throw an exception other than memory '
+                 'exhaustion (the exception-escape sets of C03-R1) - a failing call would leave a null entry that clean-up code dereferences', floor=3)
+    if not hasattr(facts, '_esc'):
+        facts._esc = escape_analysis(facts)[0]
+    Esc = facts._esc
+    edges = collections.defaultdict(lambda: collections.defaultdict(set))
+    for c in facts.calls:
+        edges[c['from']][c['toName'].split('::')[-1]].add(c['to'])
+
+    def may_fail(fn_usr, call):
+        n = call.get('n') or callee(call).split('::')[-1]
+        if n in TRIVIAL_CALLS:
+            return None
+        tos = set(edges[fn_usr].get(n, ()))
+        if call.get('usr'):
+            tos.add(call['usr'])
+        bad = set()
+        for t in tos:
+            bad |= (Esc.get(t, set()) - ALLOWED_ESCAPE)
+        return sorted(short(x) for x in bad) or None
+    for usr in facts.astidx:
+        a = facts.ast(usr)
+        if a is None or a.get('body') is None or not facts.lib_path(a['file']) or '/Include/' in a['file']:
+            continue
+        slots = []
+        for x in walk(a['body']):
+            if x.get('k') == 'OpCall' and x.get('op') == '[]' and len(x.get('args', [])) == 2:
+                t = (strip_casts(x['args'][0]) or {}).get('ty') or ''
+                t = t.replace('const ', '').strip()
+                m = _re.match(r'^(xalanc_1_12::)?XalanMap<(.*)>\s*&?$', t)
+                if m and _re.search(r'\*\s*$', m.group(2).rsplit(',', 1)[-1].strip()) and m.group(2).count('<') == m.group(2).count('>'):
+                    slots.append(x)
+        if not slots:
+            continue
+        fn = short(a.get('fq') or a.get('name') or '?')
+        # statements of the function in order, flattened
+        stmts = []
+
+        def flat(s):
+            if isinstance(s, dict) and s.get('k') == 'Compound':
+                for c in s['c']:
+                    flat(c)
+            elif isinstance(s, dict) and s.get('k') in ('If',):
+                stmts.append(s.get('cond'))
+                flat(s.get('then'))
+                if s.get('else'):
+                    flat(s['else'])
+            elif isinstance(s, dict):
+                stmts.append(s)
+        flat(a['body'])
+        for slot in slots:
+            site = '%s: %s' % (fn, pp(slot)[:50])
+            idx = next((i for i, s in enumerate(stmts) if s is not None and any(y is slot for y in walk(s))), None)
+            if idx is None:
+                res.broken.append('C03-R12: cannot place %s in the statements of %s' % (pp(slot)[:40], fn)); r.instances += 1; continue
+            st = stmts[idx]
+            # (a) m[k] = rhs in one statement: the slot may be created before rhs is evaluated (unspecified before C++17; the build is gnu++14)
+            asg = next((y for y in walk(st) if y.get('k') in ('Bin', 'OpCall') and y.get('op') == '=' and
+                        strip_casts(y['lhs'] if y['k'] == 'Bin' else y['args'][0]) is slot), None)
+            if asg is not None:
+                rhs = asg['rhs'] if asg['k'] == 'Bin' else asg['args'][1]
+                bad = [(c, may_fail(usr, c)) for c in calls(rhs)]
+                bad = [(c, b) for c, b in bad if b]
+                if bad:
+                    r.violation(site, 'the value stored is computed by %s, which can throw %s, in the same expression that creates the slot: on failure a null entry stays in the map'
+                                % (pp(bad[0][0])[:60], bad[0][1][:3]), common.file_line(a, slot))
+                else:
+                    r.ok(site, 'slot created and filled in one expression whose right-hand side cannot fail')
+                continue
+            # (b) bound to a reference (or used otherwise): every call up to the first store through that reference
+            ref_id = None
+            if st.get('k') == 'Decl':
+                for v in st.get('vars', []):
+                    if v.get('init') is not None and any(y is slot for y in walk(v['init'])) and (v.get('ty') or '').rstrip().endswith('&'):
+                        ref_id = v['id']
+            if ref_id is None:
+                r.violation(site, 'operator[] is used to read: a key that is not in the map gets a null entry, which clean-up code dereferences', common.file_line(a, slot))
+                continue
+            failing = None
+            stored = False
+            for s2 in stmts[idx + 1:]:
+                if s2 is None:
+                    continue
+                store = next((y for y in walk(s2) if y.get('k') == 'Bin' and y.get('op') == '=' and (strip_casts(y['lhs']) or {}).get('k') == 'Ref' and strip_casts(y['lhs']).get('id') == ref_id), None)
+                for c in calls(s2):
+                    b = may_fail(usr, c)
+                    if b and failing is None:
+                        failing = (c, b)
+                if store is not None:
+                    stored = True
+                    break
+            if failing is not None:
+                r.violation(site, 'the slot is created (null) and filled only after %s, which can throw %s: on failure a null entry stays in the map and is dereferenced by the '
+                            'owner\'s clean-up' % (pp(failing[0])[:60], failing[1][:3]), common.file_line(a, failing[0]))
+            elif stored:
+                r.ok(site, 'nothing that can fail between the creation of the slot and the store')
+            else:
+                r.violation(site, 'the slot created by operator[] is never filled', common.file_line(a, slot))
+    return r
+
+
+_run_c03_prev12 = run
+
+
+def run(res, facts, tier):
+    _run_c03_prev12(res, facts, tier)
+    r12_null_slots(res, facts)
